@@ -28,7 +28,7 @@ RULE = ('(t) one case = (position of the timed phase in {plain, group setup, gro
         'then acts later, -2P with the thread kept alive past the deadline by a slow log handler}, '
         'phase profiling on/off, repeat_on_timeout yes/no, own result CONTINUE / FAIL_AND_CONTINUE) '
         'with P = the join poll interval, all enumerated; (m) a monitored phase abandoned alive '
-        'after its time-out, followed by a phase monitoring a measurement of the same name; (l) the body waits for the run\'s record log handler (helper threads format a slow message under its lock) when the time-out expires; (t) also with the default time-out set after import; (k) one case = (kill scenario, pause '
+        'after its time-out, followed by a phase monitoring a measurement of the same name; (l) the body waits for the run\'s record log handler (helper threads format a slow message under its lock) when the time-out expires; (t) also with the default time-out set after import and with early bodies that end by raising (also behind the slow exit handler); (mk) the kill ending a monitor thread lands in a finalizer that thread is running; (k) one case = (kill scenario, pause '
         'point (function, line, hit) of threads.py reached by the killable thread or by the '
         'killer), all enumerated; distinct = distinct case; non-trivial = the timed body / the '
         'killable thread was started (or provably prevented) and the record / event log judged')
